@@ -314,6 +314,11 @@ func (d *l3Driver) fastBlocks(k int64) {
 	if k <= 0 {
 		return
 	}
+	// in chunks: one replica call stays far below the call timeout also on a busy machine
+	for k > 400 {
+		d.fastBlocks(400)
+		k -= 400
+	}
 	h0 := d.cl.Height
 	hashes, evs := d.cl.EmptyBlocks(k)
 	for b := int64(0); b < k; b++ {
